@@ -291,7 +291,14 @@ static int iter_int_range_next(YR_ITERATOR* self, YR_VALUE_STACK* stack)
     // Push the false value that indicates that the iterator is not exhausted.
     stack->items[stack->sp++].i = 0;
     stack->items[stack->sp++].i = self->int_range_it.next;
-    self->int_range_it.next++;
+
+    // Once the last value has been delivered mark the iterator as exhausted
+    // instead of stepping past it: for a range that ends at INT64_MAX the
+    // increment overflows, next <= last stays true and the loop never ends.
+    if (self->int_range_it.next == self->int_range_it.last)
+      self->int_range_it.next = YR_UNDEFINED;
+    else
+      self->int_range_it.next++;
   }
   else
   {
